@@ -440,9 +440,10 @@ func runSupScenario(sc SupScenario) supResult {
 			case strings.HasPrefix(tr.Kind, "rtrig:"):
 				var j int
 				fmt.Sscanf(tr.Kind, "rtrig:%d", &j)
+				rec.add("LT%d", j)
 				select {
 				case bases[j].rtrigCh <- struct{}{}:
-					rec.add("LT%d", j)
+					rec.add("LD%d", j)
 				case <-teardown:
 				case <-mainReturned:
 				}
@@ -541,7 +542,7 @@ func supHeader(sc SupScenario, r supResult, withEnd bool) string {
 func supEvents(evs []string) string {
 	var out []string
 	for _, e := range evs {
-		if strings.HasPrefix(e, "LI") || strings.HasPrefix(e, "LR") || strings.HasPrefix(e, "LT") || e == "AC" || e == "AR" {
+		if strings.HasPrefix(e, "LI") || strings.HasPrefix(e, "LR") || strings.HasPrefix(e, "LT") || strings.HasPrefix(e, "LD") || e == "AC" || e == "AR" {
 			continue
 		}
 		out = append(out, e)
@@ -643,7 +644,7 @@ func genSupScenario(r interface{ IntN(int) int }) (SupScenario, string) {
 	if r.IntN(6) == 0 {
 		// quiet scenario: only non-terminating stimuli, every gate passes
 		kind = "quiet"
-		sc.QuietMs = 60
+		sc.QuietMs = 140
 		sc.WB = true
 		sc.ShutdownMs = 1000
 		var ts []Trigger
@@ -663,6 +664,17 @@ func genSupScenario(r interface{ IntN(int) int }) (SupScenario, string) {
 			if sc.Mocks[i].RunMode == 2 {
 				sc.Mocks[i].RunMode = 0
 			}
+			sc.Mocks[i].ReloadMs = r.IntN(3)
+		}
+		// a burst of reload requests from the three sources
+		for k := r.IntN(5); k > 0; k-- {
+			t := Trigger{AtMs: 20 + msGrid[r.IntN(len(msGrid))], Kind: []string{"hup", "reloadall"}[r.IntN(2)]}
+			for j, m := range sc.Mocks {
+				if m.Caps[2] == '1' && r.IntN(2) == 0 {
+					t.Kind = fmt.Sprintf("rtrig:%d", j)
+				}
+			}
+			sc.Triggers = append(sc.Triggers, t)
 		}
 		return sc, kind
 	}
@@ -755,6 +767,16 @@ func runSup(o Opts) {
 		e.Case("supaccept "+h+" "+ev, "accepted")
 		for _, c := range []string{"c01holds", "c02holds", "c03holds", "c04holds"} {
 			e.Case(c+" "+h+" "+ev, "true")
+		}
+		// reload path (C05): the same trace projected on the reload events
+		e.Case("relaccept "+h+" "+strings.Join(r.events, " "), "accepted")
+		e.Case("c05holds "+h+" "+strings.Join(r.events, " "), "true")
+		if strings.Contains(strings.Join(r.events, " "), "LI") {
+			e.Stats["reload:pass_seen"]++
+		}
+		if r.quiet != nil {
+			e.Case("relaccept quiet=1 "+supHeader(j.sc, r, false)+" "+strings.Join(r.quiet, " "), "accepted")
+			e.Case("c05holds quiet=1 "+supHeader(j.sc, r, false)+" "+strings.Join(r.quiet, " "), "true")
 		}
 		if r.quiet != nil {
 			q := supEvents(r.quiet)
